@@ -154,11 +154,21 @@ def plan(prop, tier):
             jobs = [gen_job("c11", "native-debug", 40000, 16, timeout=3000), gen_job("c11", "native-release", 40000, 16, timeout=3000), gen_job("c11", "asan", 2000, 16, timeout=3000), gen_job("c11free", "tsan", 200, 8, timeout=3000)]
         return dict(jobs=jobs, level="exploration", rule=rule, floor_cells=["family:S1-concurrent", "family:S2-wake-before-poll", "family:S3-poll-loop", "ring:default", "ring:kernel-thread", "ring:single-issuer", "queue-full-at-wake", "wake-after-ring-dropped", "sched_kernel_blocks", "simk_msg_rings"],
                     floor_evaluations=2000, assumptions=SIMK_ASSUMPTIONS + ["liveness is judged in the bounded form 'a state in which no thread can run' under the scheduler, not by wall-clock time"], also=[])
+    if prop == "C16":
+        rule = ("(a) pure round trip storage -> bytes a10 hands to the kernel -> init with the length the kernel reports for that family (model: 16/28, path strlen+1 with and without NUL, unnamed 2), the rest of the storage filled with garbage: random and edge IPv4/IPv6 addresses, ports, flow labels, scope ids, Unix path names of every length 1..107; "
+                "(b) real kernel (E6): Unix datagram sockets bound through a10 to relative path names of every length 1..107, abstract names incl. embedded/trailing NULs, unnamed; local_addr/recv_from compared with std's getsockname; IPv4 on random 127.a.b.c, TCP accept/peer address, IPv6 ::1 recv_from; distinct = distinct address values")
+        if tier == "quick":
+            jobs = [gen_job("c16", "native-debug", 2200, 8, params={"real_every": "10"}, timeout=600)]
+        else:
+            jobs = [gen_job("c16", "native-debug", 40000, 16, params={"real_every": "4"}, timeout=3000), gen_job("c16", "native-release", 40000, 16, params={"real_every": "4"}, timeout=3000), gen_job("c16", "miri", 300, 8, params={"real_every": "1000000000"}, timeout=2400)]
+        return dict(jobs=jobs, level="exploration", rule=rule, floor_cells=["pure:ipv4", "pure:ipv6", "pure:either", "pure:unix-path", "pure:unix-unnamed", "real:unix-path", "real:unix-abstract", "real:unix-unnamed", "real:unix-recv-from", "real:ipv4", "real:accept-peer"],
+                    floor_evaluations=5000, assumptions=["the real io_uring of this sandbox (kernel 6.18) is the source of 'the length the kernel reports' for Unix and loopback addresses", "std's getsockname/getpeername views are the independent reference", "addresses that cannot be bound here are covered by the pure model only"], also=[])
     return None
 
 
 ENGINES = [
     dict(name="baton-scheduler", path="/verif/harness/src/sched.rs, src/props/mt.rs", serves_properties=["C04", "C08", "C11"], kind_free_text="runtime monitoring: real threads, one running at a time, seeded scheduler switching at the cfg(a10_verif) hook points; reproducible schedules"),
+    dict(name="real-kernel", path="/verif/harness/src/props/real.rs, c16.rs", serves_properties=["C16"], kind_free_text="a10 on the real io_uring of the sandbox next to std/libc calls on the same descriptors (differential oracle)"),
     dict(name="pure-sweep", path="/verif/harness/src/props/c14.rs", serves_properties=["C14"], kind_free_text="differential sweep of pure functions against a reference model, natively and under Miri"),
     dict(name="simk-explorer", path="/verif/harness (scenarios c01..c09 on src/simk, src/world.rs, src/props/generic.rs)", serves_properties=["C01", "C02", "C03", "C05", "C06", "C07", "C09", "C10", "C12", "C15", "C18"], kind_free_text="runtime monitoring: real a10 driven single-threaded against an in-process simulated io_uring kernel with adversarial completion timing; boundary oracles (allocator monitor, waker ledger, descriptor ledger, request log)"),
 ]
@@ -210,6 +220,9 @@ CLAIMS = {
     "C11": dict(level="exploration", engine="baton-scheduler", design_ref="DESIGN.md 4 C11", note=_NOTE + "; bounded-progress restatement of liveness",
                 technique="controlled thread schedules with deadlock detection: a Ring::poll parked in the simulated kernel while no other thread can run is a lost wake-up",
                 text="Three scenario families make 'every poll has a dedicated wake' true by construction, so a poll that blocks forever in the simulated kernel after all wake() calls returned is a lost wake-up; spurious early returns are allowed. All three ring configurations that support waking are covered, including the synchronous REGISTER_SEND_MSG_RING path and the retry loop when the queue is full."),
+    "C16": dict(level="exploration", engine="real-kernel differential + pure sweep", design_ref="DESIGN.md 4 C16", note="trusted base: the real kernel of the sandbox and std's socket address accessors as reference; the pure model of kernel-reported lengths for addresses that cannot be bound",
+                technique="differential testing against the real kernel (std getsockname as independent oracle) plus a pure storage->bytes->init sweep with garbage beyond the reported length",
+                text="Every supported address type is converted to its kernel representation and back using the length the kernel reports; for Unix addresses of every path length, abstract names and unnamed sockets the kernel of the sandbox is asked directly (bind through a10, read back through a10 and through std), for IP addresses the full value space is swept purely and loopback addresses are bound for real."),
     "C09": dict(level="exploration", engine="simk-explorer", design_ref="DESIGN.md 4 C09", note=_NOTE,
                 technique="fault injection of EINTR/ECANCELED completions with byte-for-byte comparison of re-issued submissions",
                 text="More than half of all completions in this scenario are EINTR/ECANCELED; the caller must never observe them, every re-issued submission must be byte-identical (opcode, fd, flags, offsets, addresses, lengths, user_data) to the first, failed attempts scribble the buffers so mixed data would show, and the value must be the last attempt's."),
